@@ -27,6 +27,23 @@ Supported subset
                lengths with each other or a literal, `and` / `or` / `not`, truth value of a bool, a
                list, the listener map, a metadata dict;
                `inspect.stack()[1][0].f_code.co_name` (the defining site), `site + "." + name`
+  also         `return` in constructors; `continue` and local assignments in a check loop; `bool(x)`, `x if c else y`
+               between numbers / bools; `{}`; `d.setdefault(k, [])`, `d.pop(k)`, `d.pop(k, None)`, `self._listeners = {}`;
+               `k in d.keys()`, `list(d)`, `for k in <metadata>:`; a local name for a list stored in the listener map
+               (`l = d[k]`, `l = d.get(k)`, `l = d.setdefault(k, [])`); calls of PRIVATE HELPERS -- methods of the same
+               class (or its modelled base) and module-level functions that are not translated methods -- which are
+               inlined at the call site
+Shape does not matter (normalisation before anything is emitted)
+  * `not` / `and` / `or` in the test of an `if` statement become nested ifs with the branches repeated (short-circuit
+    order kept), so guard clauses with early `return`, nested if/else and De Morgan variants give the same paths;
+  * a helper called as a statement is translated in place with its parameters bound to the (pure) arguments; `return`
+    inside it continues after the call; a helper used as a value / test must be one `return <expression>`; refused with
+    file:line: recursion, *args / **kwargs / keyword-only parameters, decorators other than @staticmethod, defaults other
+    than None / True / False, the listener map or a stored list passed as an argument;
+  * a local bound to a pure expression is substituted; a local name for a stored list is read through the map as it is at
+    each use and dies (use refused) as soon as the entry may have been replaced or dropped (item assignment, del, pop,
+    clear, a call of another method, a notification);
+  * a path on which the tests contradict each other cannot be taken: nothing has to be established on it.
 Meaning given to them
   * every `if` duplicates the rest of the method on both paths, so what a test establishes
     (isinstance, None-ness, `k in d`, `x in d[k]`) is known on its path; a parameter is used as an
@@ -36,8 +53,10 @@ Meaning given to them
   * the listener map `dict[EventType, list]` is the model's association list in insertion order:
     `d[k] = v` replaces in place or appends at the end, `del` removes the entry, a method call on
     `d[k]` updates the stored list;
-  * `raise EventError(..)` becomes the refusal kind named by its innermost guard (table in
-    classify_raise): which isinstance / length / None / registry test failed;
+  * `raise EventError(..)` becomes the refusal kind named by the tests it stands under, the innermost / last
+    evaluated one that names a refusal deciding (table in classify_raise): which isinstance / length / None /
+    registry test failed.  The kind is a label of the model only (every kind is an EventError in Python): a label
+    the hand-written model does not give makes the agreement proof fail, it cannot make it succeed wrongly;
   * loops:  (check)  `for k in <metadata>.keys(): if ..: raise ..`  -> first refusal, in order;
             (mutate) `for et in list(self._listeners.keys()): self.m(et, ..)` -> fold over the
                      SNAPSHOT of the keys, threading the map;
